@@ -34,7 +34,7 @@ func (g *Gen) run() {
 	g.classifyAllocs()
 	g.findLoops()
 
-	st := &State{reach: "true", locals: map[*ssa.Alloc]Val{}, heap: map[string]string{}, ghosts: map[string]Val{}}
+	st := &State{reach: "true", locals: map[*ssa.Alloc]Val{}, heap: map[string]string{}, ghosts: map[string]Val{}, pend: map[string]int{}}
 	g.declare("alloc0", "Int")
 	g.assumes = append(g.assumes, "(<= 0 alloc0)")
 	st.alloc = "alloc0"
@@ -67,7 +67,6 @@ func (g *Gen) run() {
 		}
 	}
 	g.entry = st.clone()
-	g.entry.heap = st.heap // share so that lazily created H0 vars appear in both
 
 	// process blocks in reverse postorder of the back-edge-cut graph
 	order := g.rpo()
@@ -159,7 +158,7 @@ func (g *Gen) mergeInto(b *ssa.BasicBlock) *State {
 		n.reach = ins[0].cond
 		return n
 	}
-	n := &State{locals: map[*ssa.Alloc]Val{}, heap: map[string]string{}, ghosts: map[string]Val{}}
+	n := &State{locals: map[*ssa.Alloc]Val{}, heap: map[string]string{}, ghosts: map[string]Val{}, pend: map[string]int{}}
 	var conds []string
 	for _, i := range ins {
 		conds = append(conds, i.cond)
@@ -217,7 +216,7 @@ func (g *Gen) mergeInto(b *ssa.BasicBlock) *State {
 	}
 	for _, k := range sortedKeys(allHeap) {
 		srt := g.heapSorts[k]
-		t, _ := mergeTerm(func(s *State) (string, bool) { v, ok := s.heap[k]; return v, ok }, srt, func() string { return "H0_" + k })
+		t, _ := mergeTerm(func(s *State) (string, bool) { return g.heapGet(s, k, srt), true }, srt, nil)
 		n.heap[k] = t
 	}
 	// ghosts
@@ -233,6 +232,34 @@ func (g *Gen) mergeInto(b *ssa.BasicBlock) *State {
 	}
 	t, _ := mergeTerm(func(s *State) (string, bool) { return s.alloc, true }, "Int", nil)
 	n.alloc = t
+	// havoc generations: equal on all incoming paths, or a new (unknown) generation
+	n.gen = ins[0].st.gen
+	n.pend = map[string]int{}
+	for _, i := range ins {
+		if i.st.gen != n.gen {
+			g.ctr++
+			n.gen = g.ctr
+			break
+		}
+	}
+	for _, i := range ins {
+		for k, v := range i.st.pend {
+			if old, ok := n.pend[k]; ok && old != v {
+				g.ctr++
+				v = g.ctr
+			}
+			n.pend[k] = v
+		}
+	}
+	for k := range n.pend {
+		for _, i := range ins {
+			if _, ok := i.st.pend[k]; !ok {
+				g.ctr++
+				n.pend[k] = g.ctr
+				break
+			}
+		}
+	}
 	return n
 }
 
@@ -301,6 +328,14 @@ func (g *Gen) enterLoop(li *loopInfo, in *State) *State {
 	for _, c := range li.spec.Invariants {
 		g.oblige(c.Label+".entry", "A", "loop invariant holds on entry: "+c.Src, in.reach, env.evalBool(c.E), false)
 	}
+	frameInv := g.spec != nil && g.spec.HasAssigns
+	if frameInv {
+		for _, k := range sortedKeys(in.heap) {
+			if goal, ok := g.frameGoal(k, in.heap[k]); ok {
+				g.oblige(fmt.Sprintf("inv.%d.frame.%s.entry", li.ordinal, k), "A", "frame invariant holds on loop entry for "+k, in.reach, goal, false)
+			}
+		}
+	}
 	// 2. havoc everything the loop may write
 	st := in.clone()
 	locals, allHeap, _ := g.loopWrites(li)
@@ -327,6 +362,13 @@ func (g *Gen) enterLoop(li *loopInfo, in *State) *State {
 	env2.atLoop = li
 	for _, c := range li.spec.Invariants {
 		g.assume(st.reach, env2.evalBool(c.E))
+	}
+	if frameInv {
+		for _, k := range sortedKeys(st.heap) {
+			if goal, ok := g.frameGoal(k, st.heap[k]); ok {
+				g.assume(st.reach, goal)
+			}
+		}
 	}
 	if li.spec.Decreases != nil {
 		m := env2.eval(li.spec.Decreases.E)
@@ -497,15 +539,28 @@ func (g *Gen) ghostWrittenIn(li *loopInfo, name string) bool {
 
 // havocHeap replaces heap variables by fresh versions. names==nil: all known heap vars (and marks a
 // generation so that heap vars first touched later are also fresh).
-func (g *Gen) havocHeap(st *State, names map[string]bool) {
+func (g *Gen) havocHeap(st *State, names map[string]bool) { g.havocHeapG(st, names, true) }
+
+func (g *Gen) havocHeapG(st *State, names map[string]bool, ghosts bool) {
 	if names == nil {
 		for _, k := range sortedKeys(g.heapSorts) {
+			if strings.HasPrefix(k, "GG_") && !ghosts {
+				continue // global ghosts are changed only through contracts
+			}
 			n := g.fresh("H_" + k)
 			g.declare(n, g.heapSorts[k])
 			st.heap[k] = n
 		}
 		// heap vars not yet known: their "entry" version must not be reused after this point.
-		st.heap["$gen"] = g.fresh("gen")
+		g.ctr++
+		st.gen = g.ctr
+		if ghosts {
+			for name := range g.W.globalGhosts {
+				if _, ok := g.heapSorts["GG_"+name]; !ok {
+					st.pend["GG_"+name] = g.ctr
+				}
+			}
+		}
 		a := g.fresh("alloc")
 		g.declare(a, "Int")
 		g.assume("true", fmt.Sprintf("(<= %s %s)", st.alloc, a))
@@ -532,14 +587,14 @@ func (g *Gen) havocHeap(st *State, names map[string]bool) {
 		st.heap[k] = n
 	}
 	// remember pending havocs for heap vars not yet declared
-	pend := st.heap["$pending"]
 	for _, k := range sortedKeys(names) {
 		if _, ok := g.heapSorts[k]; !ok && !strings.HasPrefix(k, "$") {
-			pend += "," + k
+			g.ctr++
+			if st.pend == nil {
+				st.pend = map[string]int{}
+			}
+			st.pend[k] = g.ctr
 		}
-	}
-	if pend != "" {
-		st.heap["$pending"] = pend
 	}
 }
 
@@ -551,6 +606,13 @@ func (g *Gen) closeLoop(li *loopInfo, latch *ssa.BasicBlock, st *State) {
 	env.atLoop = li
 	for _, c := range li.spec.Invariants {
 		g.oblige(c.Label+".preserve", "A", "loop invariant preserved: "+c.Src, cond, env.evalBool(c.E), false)
+	}
+	if g.spec != nil && g.spec.HasAssigns {
+		for _, k := range sortedKeys(st.heap) {
+			if goal, ok := g.frameGoal(k, st.heap[k]); ok {
+				g.oblige(fmt.Sprintf("inv.%d.frame.%s.preserve", li.ordinal, k), "A", "frame invariant preserved by the loop body for "+k, cond, goal, false)
+			}
+		}
 	}
 	if li.spec.Decreases != nil && li.dec0 != "" {
 		m := env.eval(li.spec.Decreases.E)
@@ -1312,75 +1374,77 @@ func (g *Gen) execReturn(x *ssa.Return, st *State) {
 	}
 }
 
-// frameCheck: every heap variable differs from its entry version only at the assigned locations.
-func (g *Gen) frameCheck(st *State) {
-	allowedAll := false
-	type loc struct {
-		name string
-		at   string // pointer/array-id term ("" = whole map)
+type frameLoc struct {
+	name string
+	at   string // pointer/array-id term ("" = whole map)
+}
+
+func (g *Gen) frameAllowed() (all bool, allowed []frameLoc) {
+	if g.frameDone {
+		return g.frameAll, g.frameLocs
 	}
-	var allowed []loc
+	g.frameDone = true
 	env := g.specEnv(g.entry, g.entry)
 	for _, a := range g.spec.Assigns {
 		switch {
 		case a.All:
-			allowedAll = true
+			g.frameAll = true
 		case a.Map != "":
-			allowed = append(allowed, loc{g.resolveMapName(a.Map), ""})
+			g.frameLocs = append(g.frameLocs, frameLoc{g.resolveMapName(a.Map), ""})
 		default:
-			ls := env.assignLocs(a.Expr)
-			for _, l := range ls {
-				allowed = append(allowed, loc{l[0], l[1]})
+			for _, l := range env.assignLocs(a.Expr) {
+				g.frameLocs = append(g.frameLocs, frameLoc{l[0], l[1]})
 			}
 		}
 	}
-	if allowedAll {
-		return
+	return g.frameAll, g.frameLocs
+}
+
+// frameGoal: heap variable k (current term cur) differs from its entry version only at assigned
+// locations (fresh objects exempt). ok=false: nothing to prove.
+func (g *Gen) frameGoal(k, cur string) (string, bool) {
+	all, allowed := g.frameAllowed()
+	if all || strings.HasPrefix(k, "$") {
+		return "", false
 	}
+	ent := "H0_" + k
+	if cur == ent {
+		return "", false
+	}
+	srt := g.heapSorts[k]
+	var except []string
+	for _, l := range allowed {
+		if l.name == k {
+			if l.at == "" {
+				return "", false
+			}
+			except = append(except, l.at)
+		}
+	}
+	var idxSort, oldCond string
+	switch {
+	case strings.HasPrefix(srt, "(Array Ptr "):
+		idxSort = "Ptr"
+		oldCond = "(and (=> (is-pobj q) (<= (pobj.id q) alloc0)) (=> (is-pelem q) (<= (pelem.arr q) alloc0)))"
+	case strings.HasPrefix(srt, "(Array Int "):
+		idxSort = "Int"
+		oldCond = "(<= q alloc0)"
+	default:
+		return sEq(cur, ent), true
+	}
+	var neq []string
+	for _, e := range except {
+		neq = append(neq, sNot(sEq("q", e)))
+	}
+	return fmt.Sprintf("(forall ((q %s)) (! (=> %s (= (select %s q) (select %s q))) :pattern ((select %s q))))", idxSort, sAnd(append(neq, oldCond)...), cur, ent, cur), true
+}
+
+// frameCheck: every heap variable differs from its entry version only at the assigned locations.
+func (g *Gen) frameCheck(st *State) {
 	for _, k := range sortedKeys(st.heap) {
-		if strings.HasPrefix(k, "$") {
-			continue
+		if goal, ok := g.frameGoal(k, st.heap[k]); ok {
+			g.oblige("frame."+k, "A", "frame: only the assigned locations of "+k+" change", st.reach, goal, false)
 		}
-		cur := st.heap[k]
-		ent := "H0_" + k
-		if cur == ent {
-			continue
-		}
-		srt := g.heapSorts[k]
-		var except []string
-		whole := false
-		for _, l := range allowed {
-			if l.name == k {
-				if l.at == "" {
-					whole = true
-				} else {
-					except = append(except, l.at)
-				}
-			}
-		}
-		if whole {
-			continue
-		}
-		// forall idx. idx not in except and idx "old" ⇒ cur[idx] = ent[idx]
-		var idxSort, oldCond string
-		switch {
-		case strings.HasPrefix(srt, "(Array Ptr "):
-			idxSort = "Ptr"
-			oldCond = fmt.Sprintf("(and (=> (is-pobj q) (<= (pobj.id q) alloc0)) (=> (is-pelem q) (<= (pelem.arr q) alloc0)))")
-		case strings.HasPrefix(srt, "(Array Int "):
-			idxSort = "Int"
-			oldCond = "(<= q alloc0)"
-		default:
-			// global variable
-			g.oblige("frame."+k, "A", "frame: "+k+" unchanged", st.reach, sEq(cur, ent), false)
-			continue
-		}
-		var neq []string
-		for _, e := range except {
-			neq = append(neq, sNot(sEq("q", e)))
-		}
-		goal := fmt.Sprintf("(forall ((q %s)) (=> %s (= (select %s q) (select %s q))))", idxSort, sAnd(append(neq, oldCond)...), cur, ent)
-		g.oblige("frame."+k, "A", "frame: only the assigned locations of "+k+" change", st.reach, goal, false)
 	}
 }
 
